@@ -1,4 +1,4 @@
-import QProofs.MachineTree
+import QProofs.MachineCount
 /-!
 # C11 — a displacement move moves only the chosen particle
 
@@ -142,6 +142,18 @@ theorem composite_no_repeat (rs : List Nat) (acc : List (Option Int)) (s : State
 theorem composite_reports_count (rs : List Nat) (s : State) :
     (compDispCall rs s).1 = decide (((compDispCall rs s).2.1.filterMap id).length > 0) := by
   rfl
+
+/-- **composite_count**: when the geometric check never vetoes and the members share one labelling `L`, a composite of
+    `n` displacement moves displaces `n` particles, or else every eligible particle: together with
+    `composite_no_repeat` (pairwise distinct labels, all taken from the eligible ones) it moves exactly
+    `min(n, eligible)` particles. -/
+theorem composite_count (L : List Int) (rs : List Nat) (s : State)
+    (hrs : ∀ r ∈ rs, r < s.heap.length) (hL : ∀ r ∈ rs, (s.obj r).labels = L)
+    (hm : ∀ r ∈ rs, 0 < (s.obj r).maxAttempts) (hnv : NoVeto s.inp) :
+    ((compDispCall rs s).2.1.filterMap id).length = rs.length ∨
+    setdiff (uniqueLabels L) ((compDispCall rs s).2.1.filterMap id) = [] := by
+  have := compDispLoop_count_noVeto L rs [] s hrs hL hm hnv
+  simpa [compDispCall] using this
 
 /-! ### non-vacuity -/
 
